@@ -132,6 +132,9 @@ func c14Word(c c14Case, vars map[string]string) (ast.Word, string, error) {
 					w = append(w, &ast.Quote{Tok: `\`, Value: ast.Word{&ast.Lit{Value: t[:n]}}})
 					t = t[n:]
 				}
+			case s.Style == `"-` && s.Text != "":
+				// the text as the default of a parameter that is never set, inside double-quotes
+				w = append(w, &ast.Quote{Tok: `"`, Value: ast.Word{&ast.ParamExp{Braces: true, Name: &ast.Lit{Value: "c14_never_set"}, Op: ":-", Word: ast.Word{&ast.Lit{Value: s.Text}}}}})
 			case s.Style == "'":
 				if s.Text == "" {
 					w = append(w, &ast.Quote{Tok: `'`, Value: ast.Word{}})
@@ -166,6 +169,8 @@ func c14Word(c c14Case, vars map[string]string) (ast.Word, string, error) {
 			b.WriteString("$@")
 		case !s.Quoted && s.Style == `"@`:
 			b.WriteString(`"$@"`)
+		case s.Quoted && s.Style == `"-` && s.Text != "" && !strings.ContainsAny(s.Text, "\"$`\\}'") && utf8.ValidString(s.Text):
+			b.WriteString(`"${c14_never_set:-` + s.Text + `}"`)
 		case s.Quoted && s.Style == "'" && !strings.Contains(s.Text, "'") && utf8.ValidString(s.Text):
 			b.WriteString("'" + s.Text + "'")
 		case s.Quoted && s.Style == `"` && !strings.ContainsAny(s.Text, "\"$`\\") && utf8.ValidString(s.Text):
@@ -460,6 +465,8 @@ func TestC14(t *testing.T) {
 			sym{"Q\\", func(w, n string) (ref.Seg, bool) {
 				return ref.Seg{Text: n + w, Quoted: true, Style: `\`}, n+w != "" && !strings.Contains(n+w, "\n")
 			}},
+			sym{"\\", func(w, n string) (ref.Seg, bool) { return ref.Seg{Text: `\`}, true }}, // a backslash is an ordinary character here
+			sym{"Q-", func(w, n string) (ref.Seg, bool) { return ref.Seg{Text: "a" + n + w, Quoted: true, Style: `"-`}, true }},
 			sym{"@", func(w, n string) (ref.Seg, bool) { return ref.Seg{Style: "@"}, true }},
 			sym{"\"@", func(w, n string) (ref.Seg, bool) { return ref.Seg{Style: `"@`}, true }},
 		)
@@ -656,7 +663,7 @@ func TestC14(t *testing.T) {
 			_, w := utf8.DecodeRuneInString(ifs[j:])
 			alpha = append(alpha, ifs[j:j+w], ifs[j:j+w])
 		}
-		alpha = append(alpha, " ", ",", ":", "\t", "\n")
+		alpha = append(alpha, " ", ",", ":", "\t", "\n", `\`, `a\`)
 		if strings.Contains(ifs, "\xff") {
 			alpha = append(alpha, "\xff", "\xff\xff", "\xfe", "\uFFFD", "\x80")
 		}
@@ -695,7 +702,7 @@ func TestC14(t *testing.T) {
 		for i := 0; i < k; i++ {
 			sg := ref.Seg{Text: text.Draw(rt, "seg"), Quoted: rapid.Bool().Draw(rt, "quoted")}
 			if sg.Quoted {
-				sg.Style = rapid.SampledFrom([]string{"", "'", `"`, `\`, "$"}).Draw(rt, "style")
+				sg.Style = rapid.SampledFrom([]string{"", "'", `"`, `\`, "$", `"-`}).Draw(rt, "style")
 			} else if sg.Text == "" {
 				sg.Style = rapid.SampledFrom([]string{"", "@", `"@`}).Draw(rt, "style")
 			}
